@@ -78,6 +78,10 @@ func (f *Frame) applyCall(c *ssa.CallCommon, fnv Val, args []Val, st *State, pos
 	if fnv.Clo != nil {
 		return f.applyFunction(fnv.Clo.Fn, fnv.Clo.Bind, args, st, pos)
 	}
+	// calling a nil function value panics
+	if !f.pure && fnv.T.S != "" && fnv.T.Sort == SInt && !isGlobalFuncVar(c.Value) && !isDeferredCancel(c.Value) {
+		un.oblige(st, "nil", "call through function value "+c.Value.Name()+" (nil would panic)", pos, Neq(fnv.T, IntLit(0)), true)
+	}
 	// callback parameter with a declared meaning?
 	if ct := eng.callbackContract(f, c.Value); ct != nil {
 		if ct.Pure && len(ct.Ensures) == 0 && len(ct.Requires) == 0 && sig.Results().Len() == 1 {
@@ -208,6 +212,34 @@ func modAllowed(k string, allowed map[string]bool) bool {
 			if !ex {
 				return true
 			}
+		}
+	}
+	return false
+}
+
+// isGlobalFuncVar: a package-level function variable read (`clock()`): initialised by the package, never nil (A-GLOBALS).
+func isGlobalFuncVar(v ssa.Value) bool {
+	if u, ok := v.(*ssa.UnOp); ok {
+		_, g := u.X.(*ssa.Global)
+		return g
+	}
+	return false
+}
+
+// isDeferredCancel: the CancelFunc returned by context.WithCancel / WithTimeout / WithDeadline is never nil.
+func isDeferredCancel(v ssa.Value) bool {
+	ex, ok := v.(*ssa.Extract)
+	if !ok {
+		return false
+	}
+	call, ok := ex.Tuple.(*ssa.Call)
+	if !ok {
+		return false
+	}
+	if fn := call.Call.StaticCallee(); fn != nil && fn.Pkg != nil && fn.Pkg.Pkg.Path() == "context" {
+		switch fn.Name() {
+		case "WithCancel", "WithTimeout", "WithDeadline":
+			return ex.Index == 1
 		}
 	}
 	return false
